@@ -7,6 +7,9 @@ pub fn run(v: &serde_json::Value, rep: &mut Report) -> Result<(), String> {
     let ops = v.get("ops").and_then(|x| x.as_array()).ok_or("missing ops")?;
     let q = OrderQueue::new();
     let mut model: Vec<OrderId> = vec![]; // FIFO of currently queued ids, in push order
+    // executable form of the PROVED contracts: tickets are appended by push, consumed by pop, untouched by remove
+    let mut tickets: std::collections::VecDeque<OrderId> = std::collections::VecDeque::new();
+    let allow_repush = v.get("allow_repush").and_then(|x| x.as_bool()).unwrap_or(true);
     for (step, op) in ops.iter().enumerate() {
         let name = op.get("op").and_then(|x| x.as_str()).ok_or("op without name")?;
         match name {
@@ -16,9 +19,14 @@ pub fn run(v: &serde_json::Value, rep: &mut Report) -> Result<(), String> {
                 if model.contains(&o.id()) { return Err(format!("step {step}: id already queued (outside the property's domain)")); }
                 q.push(Arc::new(o));
                 model.push(o.id());
+                tickets.push_back(o.id());
+                let _ = allow_repush;
             }
             "pop" => {
                 let got = q.pop().map(|o| o.id());
+                let mut by_tickets = None;
+                while let Some(t) = tickets.pop_front() { if model.contains(&t) { by_tickets = Some(t); break; } }
+                if got != by_tickets { rep.violation("C19", "pop.follows_ticket_order", format!("step={step} popped {got:?} but the earliest ticket of a queued order is {by_tickets:?}")); }
                 let want = if model.is_empty() { None } else { Some(model.remove(0)) };
                 if got != want {
                     rep.violation("C19", "pop.fifo_order", format!("step={step} popped {got:?} but the earliest pushed, still queued id is {want:?}"));
